@@ -78,9 +78,10 @@ def run(ctx):
     proved = ctx.prove("LaytheVerif.Props.C05")
     ok_c, out_c = common.cargo_build()
     ok_a, out_a = common.cargo_build(bin="vh_alloc")
-    if not (ok_c and ok_a):
+    ok_p, out_p = common.cargo_build(bin="vh_runpoison")
+    if not (ok_c and ok_a and ok_p):
         ctx.violation("harness_build", {"kind": "harness-build-failed", "broken": "cargo build of /verif/harness against /repo",
-                                        "output": (out_c + out_a)[-3000:]}, no_input=True)
+                                        "output": (out_c + out_a + out_p)[-3000:]}, no_input=True)
         return
     ctx.cov["rule"] = ("(a) random mutator/collector histories against the real Allocator (boxes, tuples, interned strings, plain-heap objects; "
                        "roots, temp roots, schedules every-k, byte thresholds, forced nursery/full) judged by a reachability monitor and replayed "
@@ -100,6 +101,10 @@ def run(ctx):
             files = cf + sched_stream.write_zoo(ctx, ctx.n(500, 4000), "zoo_search") + sched_stream.write_generated(ctx, ctx.n(200, 3000), "gen_search") \
                 + sched_stream.fixture_programs(ctx.n(150, None))
             ok = sched_stream.compare_modes(ctx, "search_schedules", files, modes, steps=ctx.n(150000, 400000))
+            if ok:
+                # the object zoo again under the allocator that poisons released blocks (a use after free reads 0xDD..)
+                ok = sched_stream.compare_modes(ctx, "search_schedules_poisoned", cf + sched_stream.write_zoo(ctx, ctx.n(1500, 6000), "zoo_search_p", salt=3),
+                                                ["--gc every:1", "--gc every:2 --full 1", "--gc every:3 --full 0"], steps=ctx.n(150000, 400000), bin="vh_runpoison")
             if ok and common.cargo_build(nan_boxing=True)[0]:
                 nb = cf + sched_stream.write_zoo(ctx, ctx.n(400, 3000), "zoo_search_nb", salt=2)
                 ok = sched_stream.compare_modes(ctx, "search_schedules_nan_boxing", nb, ["--gc every:1", "--gc every:3 --full 1", "--gc every:2 --full 0"],
@@ -120,6 +125,10 @@ def run(ctx):
     files = cf + sched_stream.write_generated(ctx, ctx.n(70, 3000), "gen") + sched_stream.write_zoo(ctx, ctx.n(120, 3000)) \
         + sched_stream.fixture_programs(ctx.n(120, None))
     if not sched_stream.compare_modes(ctx, "schedules", files, modes, steps=ctx.n(150000, 400000)):
+        return
+    # released memory usually still looks valid: the zoo and the corpus again under an allocator that poisons every released block
+    if not sched_stream.compare_modes(ctx, "schedules_poisoned", cf + sched_stream.write_zoo(ctx, ctx.n(400, 4000), "zoo_p", salt=4),
+                                      ["--gc every:1", "--gc every:2 --full 1"], steps=ctx.n(150000, 400000), bin="vh_runpoison"):
         return
     # "in both value representations": the zoo and a part of the generated programs again in the NaN-boxed build
     ok_nb, out_nb = common.cargo_build(nan_boxing=True)
@@ -148,8 +157,11 @@ def replay(path):
         tmp = os.path.join(common.VERIF, "work", "c05_replay.lay")
         os.makedirs(os.path.dirname(tmp), exist_ok=True)
         open(tmp, "w").write(r["program"])
-        a = common.run_batch(["%s --steps 400000 %s" % (r.get("base_mode", "") if r.get("base_mode") != "default" else "", tmp)])[0]
-        b = common.run_batch(["%s --steps 400000 %s" % (r["mode"], tmp)])[0]
+        runner = r.get("runner", "vharness")
+        nb = bool(r.get("nan_boxing"))
+        common.cargo_build(bin=runner, nan_boxing=nb)
+        a = common.run_batch(["%s --steps 400000 %s" % (r.get("base_mode", "") if r.get("base_mode") != "default" else "", tmp)], bin=runner, nan_boxing=nb)[0]
+        b = common.run_batch(["%s --steps 400000 %s" % (r["mode"], tmp)], bin=runner, nan_boxing=nb)[0]
         print(a["status"], "|", b["status"])
         return 1 if sched_stream.canon(a) != sched_stream.canon(b) else 0
     if "ops" in r:
